@@ -252,14 +252,19 @@ ROUND10 = {
 # engines and rule families added in the session of round 11 (DESIGN 8.5, round 11)
 ROUND11 = {
  "C05": "E13 waited-channel-stable for the per-connection senders (from C19); per-connection channels not shared (from C10)",
- "C08": "E13 waited-channel-stable for xstar/xbus (from C19; found D17)",
+ "C08": "E13 waited-channel-stable for xstar/xbus (from C19; found D17); E14 derived-field coherence (from C11)",
  "C18": "E13 waited-channel-stable (from C19)",
  "C19": "E13 WAITED-CHANNEL-STABLE: every channel-typed field some function parks on (blocking receive/send/select arm read from the field) is replaced only in a step that wakes the waiters (close of a channel of the same object or of the old channel, Broadcast; must-pass to every return), during construction (fresh object, fresh-parameter helpers), or - for send-only waiters - with the old queue drained (found D17)",
  "C10": "E12 nil-safety (from C12); channels installed in waited-on fields are made by the installing function (E13 channels-not-shared: queues and close channels are never handed from one object to another)",
- "C11": "E12 nil-safety (from C12); E3 slice-alias: a guarded slice field with an in-place writer is not walked through a copy of its header outside the guard",
+ "C06": "E14 derived-field coherence (from C11)",
+ "C07": "E14 derived-field coherence (from C11)",
+ "C14": "the dialer is told of every successful attach (guards of the pipeConnected call in addPipe are the attach outcome and the pipe's dialer only)",
+ "C15": "conn-configuration: methods called on net / crypto/tls connections and listeners are from an allow-list (no linger, deadline, buffer-size or half-close)",
+ "C17": "E5 send-while-shared: a message handed to the socket-level SendMsg with a further reference still held by the sender",
+ "C20": "E12 nil-safety on macat (the socket exists only behind the test in Run); the output writer is read by printMsg only; E5 send-while-shared",
+ "C11": "E14 DERIVED-FIELD COHERENCE: fields filled from a walk over a sibling collection are found automatically and every writer of the collection must clear or rebuild them in the same critical section; E12 nil-safety (from C12); E3 slice-alias: a guarded slice field with an in-place writer is not walked through a copy of its header outside the guard",
  "C12": "E12 NILSAFE: forward must-non-nil dataflow per function over the fields the module itself treats as optional (nil tests / nil stores) and over maps not made at every creation, with entry facts from all call sites and closure creations (greatest fixpoint), kill on calls that may clear, error-checked results, companion fields and correlated merges",
- "C16": "E12 nil-safety on every peer-driven function; per-connection channels not shared (from C10)",
- "C20": "E12 nil-safety on macat (the socket exists only behind the test in Run)",
+ "C16": "E12 nil-safety on every peer-driven function; per-connection channels not shared (from C10); accept loops park on nothing (no channel operation, WaitGroup or Cond wait directly or below any call they make)",
 }
 for k, (t, x) in EXTRA.items():
     tech, text, note, ref = CLAIMED[k]
